@@ -290,6 +290,52 @@ def _check_invariant_helper(ctx, res: RuleResult):
     got = rec.fields.get(inv_key)
     if got is None:
         raise AnalysisError(f"invariant-code helper {fi.qualname}: no value stored under {inv_key!r} in the atom records")
+    # the code of an atom is computed from that atom's own record in the same iteration: it does not come out of a container
+    # that outlives the iteration and is filled inside the loop (a cache keyed by part of the attributes would hand one
+    # atom the code of another)
+    for lp in [n for n in own_walk(fi.node) if isinstance(n, ast.For)]:
+        stores_ = []
+        for n in ast.walk(lp):
+            if isinstance(n, ast.Call) and isinstance(n.func, ast.Attribute) and n.func.attr == "update" and n.args and isinstance(n.args[0], ast.Dict):
+                for k_, v_ in zip(n.args[0].keys, n.args[0].values):
+                    if k_ is not None and try_const(ctx, fi, k_) == inv_key:
+                        stores_.append(v_)
+            if isinstance(n, ast.Assign) and isinstance(n.targets[0], ast.Subscript) and try_const(ctx, fi, n.targets[0].slice) == inv_key:
+                stores_.append(n.value)
+        if not stores_:
+            continue
+        iterated = {x.id for x in ast.walk(lp.iter) if isinstance(x, ast.Name)}
+        target_names = {x.id for x in ast.walk(lp.target) if isinstance(x, ast.Name)}
+        filled = set()
+        for n in ast.walk(ast.Module(lp.body, [])):
+            if isinstance(n, ast.Assign) and isinstance(n.targets[0], ast.Subscript) and isinstance(n.targets[0].value, ast.Name):
+                filled.add(n.targets[0].value.id)
+            if isinstance(n, ast.Call) and isinstance(n.func, ast.Attribute) and n.func.attr in ("append", "add", "setdefault", "update", "extend", "insert") and isinstance(n.func.value, ast.Name):
+                filled.add(n.func.value.id)
+        body_assigned = {x.id for x in ast.walk(ast.Module(lp.body, [])) if isinstance(x, ast.Name) and isinstance(x.ctx, ast.Store)}
+        carried = {c for c in filled if c not in body_assigned and c not in iterated and c not in target_names}
+        # backward slice of the stored value inside the loop body
+        seen_n, work = set(), [x for v_ in stores_ for x in ast.walk(v_)]
+        reads_carried = None
+        while work:
+            x = work.pop()
+            if isinstance(x, ast.Subscript) and isinstance(x.value, ast.Name) and x.value.id in carried and isinstance(x.ctx, ast.Load):
+                reads_carried = x
+            if isinstance(x, ast.Call) and isinstance(x.func, ast.Attribute) and x.func.attr in ("get", "pop", "setdefault") and isinstance(x.func.value, ast.Name) and x.func.value.id in carried:
+                reads_carried = x
+            if isinstance(x, ast.Name) and isinstance(x.ctx, ast.Load) and x.id not in seen_n:
+                seen_n.add(x.id)
+                for d in ast.walk(ast.Module(lp.body, [])):
+                    if isinstance(d, (ast.Assign, ast.AnnAssign, ast.NamedExpr)) and getattr(d, "value", None) is not None:
+                        tgs = d.targets if isinstance(d, ast.Assign) else [d.target]
+                        if any(isinstance(t_, ast.Name) and t_.id == x.id for t_ in tgs):
+                            work += list(ast.walk(d.value))
+        ok_own = reads_carried is None
+        res.inst(fi.fq, "an atom's invariant code is computed from its own record within the iteration", "ok" if ok_own else "fail")
+        if not ok_own:
+            res.fail(Finding("R-KEYS", fi.module.rel, fi.qualname, norm(reads_carried),
+                             f"the invariant code stored for an atom is read from `{short(reads_carried)}`, a container filled across iterations: "
+                             "an atom can receive the code computed from another atom's attributes", line=reads_carried.lineno))
     labels = {x[len("@field:"):] for x in taint(got) if isinstance(x, str) and x.startswith("@field:")}
     want = set(IDENTITY_KEYS)
     if labels >= set(universe):
